@@ -1,5 +1,6 @@
-// Independent matcher for cgroup patterns: component-wise, `*` and `?` inside
-// a component (never across '/'), literals otherwise. Deliberately not built
+// Independent matcher for cgroup patterns: component-wise, `*`, `?`, bracket
+// expressions and backslash quoting inside a component (never across '/'),
+// literals otherwise. Deliberately not built
 // on glob(3)/fnmatch(3), which oomd uses.
 #pragma once
 #include <string>
@@ -23,25 +24,80 @@ inline std::vector<std::string> splitPath(const std::string& p) {
   return r;
 }
 
-inline bool compMatch(const std::string& pat, const std::string& s) {
-  // classic iterative wildcard match
-  size_t p = 0, i = 0, star = std::string::npos, mark = 0;
-  while (i < s.size()) {
-    if (p < pat.size() && (pat[p] == '?' || pat[p] == s[i])) {
+// one path component against one pattern component, glob(7) rules: `*`, `?`,
+// bracket expressions ([abc], [a-c], [!abc] / [^abc]; an unterminated `[` is
+// a literal) and backslash quoting of the next character
+inline bool compMatchAt(const std::string& pat, size_t p, const std::string& s,
+                        size_t i) {
+  while (p < pat.size()) {
+    char c = pat[p];
+    if (c == '*') {
+      while (p < pat.size() && pat[p] == '*')
+        p++;
+      if (p == pat.size())
+        return true;
+      for (size_t k = i; k <= s.size(); k++)
+        if (compMatchAt(pat, p, s, k))
+          return true;
+      return false;
+    }
+    if (i >= s.size())
+      return false;
+    if (c == '?') {
       p++;
       i++;
-    } else if (p < pat.size() && pat[p] == '*') {
-      star = p++;
-      mark = i;
-    } else if (star != std::string::npos) {
-      p = star + 1;
-      i = ++mark;
-    } else
+      continue;
+    }
+    if (c == '[') {
+      size_t q = p + 1;
+      bool neg = false;
+      if (q < pat.size() && (pat[q] == '!' || pat[q] == '^')) {
+        neg = true;
+        q++;
+      }
+      size_t first = q, end = std::string::npos;
+      for (size_t k = q; k < pat.size(); k++)
+        if (pat[k] == ']' && k > first) {
+          end = k;
+          break;
+        }
+      if (end != std::string::npos) {
+        bool in = false;
+        for (size_t k = first; k < end; k++) {
+          if (k + 2 < end && pat[k + 1] == '-') {
+            if ((unsigned char)pat[k] <= (unsigned char)s[i] &&
+                (unsigned char)s[i] <= (unsigned char)pat[k + 2])
+              in = true;
+            k += 2;
+          } else if (pat[k] == s[i]) {
+            in = true;
+          }
+        }
+        if (in == neg)
+          return false;
+        p = end + 1;
+        i++;
+        continue;
+      }
+      // no closing bracket: literal '['
+    }
+    if (c == '\\' && p + 1 < pat.size()) {
+      if (pat[p + 1] != s[i])
+        return false;
+      p += 2;
+      i++;
+      continue;
+    }
+    if (c != s[i])
       return false;
-  }
-  while (p < pat.size() && pat[p] == '*')
     p++;
-  return p == pat.size();
+    i++;
+  }
+  return i == s.size();
+}
+
+inline bool compMatch(const std::string& pat, const std::string& s) {
+  return compMatchAt(pat, 0, s, 0);
 }
 
 // does relative path `rel` match pattern `pat` component-wise (same depth)?
